@@ -115,6 +115,23 @@ theorem C06_oversize_reported (cfg : Config) (init : LState) (script : List Outc
 /-- the budget xargs derives from `sysconf(_SC_ARG_MAX)` is the kernel's own limit -/
 theorem C06_argmax_is_kernel_limit (stack : Nat) : sysconfArgMax stack = kernelLimit stack := rfl
 
+/-- **Replace mode (-I).**  `execute` passes the command after substitution through the limiter
+    chain afresh, from the empty state; whatever passes is accepted by exec - however many
+    occurrences were replaced and however long the line is. -/
+theorem C06_replace_accepted (lim : Limits) (sub : List (List UInt8)) (init : LState)
+    (envp : List (List UInt8)) (argMax : Nat) (file : List UInt8)
+    (hsys : lim.sys = sysBudget argMax (envp.map List.length))
+    (hptr : lim.ptr = 8) (hmax : lim.maxArg = 131072)
+    (hroom : 2048 + (strCostL (envp.map List.length) + 8 * envp.length) ≤ argMax)
+    (hfile : file.length + 1 ≤ 2048)
+    (henv : ∀ e ∈ envp, e.length + 1 ≤ 131072)
+    (hne : sub ≠ [])
+    (hinit : initState lim LState.zero sub = some init) :
+    execAccepts argMax file sub envp = true := by
+  have h := C06_accepted ⟨lim, false, false, none⟩ sub init envp argMax file [] []
+    hsys hptr hmax hroom hfile henv hne hinit (by simp) [] (by simp [processInput, nextOutcome, classify])
+  simpa using h
+
 /-! Non-vacuity: a concrete configuration that meets the hypotheses of `C06_accepted`. -/
 example :
     let lim : Limits := ⟨none, none, none, sysBudget 131072 [20, 30], 8, 131072⟩
